@@ -280,10 +280,13 @@ func c15bRunHist(t *c15tree, c c15bCase) (o c15bHistOut) {
 
 func TestVerifC15B(t *testing.T) {
 	log.SetOutput(io.Discard)
-	log.StandardLogger().ExitFunc = func(code int) { panic(fmt.Sprintf("log.Fatal exit(%d)", code)) }
 	r := verifkit.New("C15")
 	defer r.Write()
-	trees := c15trees()
+	c15installNet(r)
+	var trees []*c15tree
+	if !c15guardedSetup(r, "building the three 7-node taxonomies (caterpillar, binary, bushy)", func() { trees = c15trees() }) {
+		return // every case of this part is placed on one of them
+	}
 	byName := map[string]*c15tree{}
 	for _, tr := range trees {
 		byName[tr.name] = tr
@@ -416,6 +419,7 @@ func TestVerifC15B(t *testing.T) {
 		for qi, q := range queries {
 			c := base
 			c.Queries, c.Workers, c.Batch = []string{q}, 1, 10
+			r.Count("history_runs_on_fresh_references", 1)
 			o := c15bRunHist(tr, c)
 			r.Eval(1)
 			r.Trans(int64(len(c.Refs)))
@@ -445,6 +449,9 @@ func TestVerifC15B(t *testing.T) {
 			}
 			if taxid != 1 {
 				r.Count("history_query_assigned_below_root", 1)
+			}
+			if len(bestTax) > 0 && tr.lca(bestTax) != 1 {
+				r.Count("history_query_best_lca_below_root", 1) // a fact about the case, not about the answer
 			}
 			for _, x := range bestTax {
 				if !tr.isAncOrSelf(taxid, x) {
@@ -692,8 +699,9 @@ func TestVerifC15B(t *testing.T) {
 		}
 	}
 	r.RequireNonVacuous("history_streams")
-	r.RequireNonVacuous("stored_indexes_lazily_built")
-	r.RequireNonVacuous("history_query_assigned_below_root")
+	// (stored_indexes_lazily_built and history_query_assigned_below_root count answers of the implementation: counters only)
+	r.RequireNonVacuous("history_runs_on_fresh_references")
+	r.RequireNonVacuous("history_query_best_lca_below_root")
 	r.RequireNonVacuous("unknown_reference_before_a_known_one")
 	r.RequireNonVacuous("unique_exact_match")
 }
